@@ -188,3 +188,73 @@ theorem repM_lock (hashOf : K → BitVec 64) (b : BucketM K V) (h : RepM hashOf 
         | (rw [topHashMatch_unlockbit _ _ _ hj']; exact this)
 
 end Proofs.WordsInv
+
+/-! ### the shrink trigger of `MapOf`: `newmetaw == defaultMeta` means "this bucket is empty now" -/
+namespace Proofs.WordsInv
+open Model.Words Proofs.LeafBits
+
+variable {K V : Type} [DecidableEq K]
+
+/-- a word is determined by its eight bytes -/
+theorem eq_of_bytes (w w' : BitVec 64) (h : ∀ i, i < 8 → byteOf w i = byteOf w' i) : w = w' := by
+  apply BitVec.eq_of_getLsbD_eq
+  intro j hj
+  have hb := h (j / 8) (by omega)
+  have := congrArg (fun b : BitVec 8 => b.getLsbD (j % 8)) hb
+  simp only [byteOf] at this
+  have e1 := getByte_getLsbD w (j / 8) (j % 8)
+  have e2 := getByte_getLsbD w' (j / 8) (j % 8)
+  simp only [getByte] at e1 e2
+  rw [e1, e2] at this
+  have hlt : j % 8 < 8 := Nat.mod_lt _ (by omega)
+  have hidx : 8 * (j / 8) + j % 8 = j := by omega
+  simpa [hlt, hidx] using this
+
+/-- the three bytes of `meta` no slot uses keep their initial value -/
+def Upper (w : BitVec 64) : Prop := ∀ i, 5 ≤ i → i < 8 → byteOf w i = Gen.emptyMetaSlot
+
+theorem upper_default : Upper Gen.defaultMeta := fun i _ h8 => defaultMeta_bytes i h8
+
+theorem upper_setByte (w : BitVec 64) (b : BitVec 8) (i : Nat) (hi : i < 5) (h : Upper w) : Upper (Gen.setByte w b i) := by
+  intro j h5 h8
+  rw [show byteOf (Gen.setByte w b i) j = byteOf w j from getByte_setByte_other _ _ i j (by omega) h8 (by omega)]
+  exact h j h5 h8
+
+/-- **`meta == defaultMeta` iff the bucket holds no entry** (for a hash byte that is never `emptyMetaSlot`, as `h2` is):
+the test `doCompute` makes after a delete to decide whether to attempt a shrink is M3's "the bucket that held the entry
+became empty" -/
+theorem meta_default_iff_empty (hk : K → BitVec 8) (hne : ∀ k, hk k ≠ Gen.emptyMetaSlot) (b : BucketOf K V)
+    (h : RepB hk b) (hu : Upper b.metaw) :
+    b.metaw = Gen.defaultMeta ↔ b.entries = [none, none, none, none, none] := by
+  have hlen : b.entries.length = 5 := h.1
+  constructor
+  · intro hm
+    have hall : ∀ i, i < 5 → b.entries.getD i none = none := by
+      intro i hi
+      have := h.2 i hi
+      rw [hm, show byteOf Gen.defaultMeta i = Gen.emptyMetaSlot from defaultMeta_bytes i (by omega)] at this
+      cases he : b.entries.getD i none with
+      | none => rfl
+      | some kv =>
+        obtain ⟨k, v⟩ := kv
+        rw [he] at this
+        exact absurd this.symm (hne k)
+    match hb : b.entries, hlen with
+    | [e0, e1, e2, e3, e4], _ =>
+      have h0 := hall 0 (by omega); have h1 := hall 1 (by omega); have h2 := hall 2 (by omega)
+      have h3 := hall 3 (by omega); have h4 := hall 4 (by omega)
+      rw [hb] at h0 h1 h2 h3 h4
+      simp at h0 h1 h2 h3 h4
+      simp [h0, h1, h2, h3, h4]
+  · intro he
+    apply eq_of_bytes
+    intro i hi
+    rw [show byteOf Gen.defaultMeta i = Gen.emptyMetaSlot from defaultMeta_bytes i hi]
+    by_cases h5 : i < 5
+    · have := h.2 i h5
+      rw [he] at this
+      obtain rfl | rfl | rfl | rfl | rfl : i = 0 ∨ i = 1 ∨ i = 2 ∨ i = 3 ∨ i = 4 := by omega
+      all_goals simpa using this
+    · exact hu i (by omega) hi
+
+end Proofs.WordsInv
